@@ -246,3 +246,72 @@ def waiting_execute(self):
            and (old(self._waiting_future)._state == 'CANCELLED' or old(self._waiting_future)._exception is exc))
     raises(AssertionError, self.done_callback is None)
     raises(TypeError, not callable_(self.done_callback))
+
+
+# ------------------------------------------------------------------------------------------------ checkpoints of the states (C07, C08, C13)
+from plumpy.persistence import LoadSaveContext, Savable
+
+
+@spec
+def state_load_context(c):
+    """the load context a process hands to its state: it names the process the state belongs to"""
+    return isinstance(c, LoadSaveContext) and wf_lsc(c) and dhas(c._values, 'process') and isinstance(dget(c._values, 'process'), Process)
+
+
+@contract('plumpy.process_states.Created.save_instance_state', props=['C07', 'C08', 'C13'], ghost=['M', 'K'])
+def created_save(self, out_state, save_context, M=None, K=None):
+    """a CREATED state's checkpoint: the continuation by NAME, its positional and keyword arguments by value (M: either member)"""
+    requires((M == 'args' or M == 'kwargs') and K == 'run_fn')
+    requires(type_is(self, Created) and is_dict(out_state) and wf_state(out_state) and not dhas(out_state, 'run_fn'))
+    requires(is_method(self.run_fn))
+    modifies(contents(out_state), contents(dget(out_state, '!!meta'), when=dhas(out_state, '!!meta')),
+             contents(dget(dget(out_state, '!!meta'), 'types'), when=dhas(out_state, '!!meta') and dhas(dget(out_state, '!!meta'), 'types')),
+             ghost('LASTSAVED'), self._persist_configured)
+    ensures('continuation_by_name', dhas(out_state, 'run_fn') and dget(out_state, 'run_fn') == attr(self.run_fn, '__name__'))
+    ensures('arguments_by_value', saved_member(self, out_state, M, attr(self, M)))
+    raises(Exception, True)     # a nested Savable's save() is unknown code; a method of another object is refused
+    replay('continuation_by_name', 'bundle_roundtrip')
+    replay('arguments_by_value', 'bundle_roundtrip')
+
+
+# (the load side -- `getattr(process, <recorded name>)` -- splits over every member name of Process and its subclasses; both
+#  solvers need minutes per obligation on the resulting string constraints: covered by the bounded searches bundle_roundtrip
+#  and checkpoint_resume instead)
+
+
+@contract('plumpy.process_states.Running.save_instance_state', props=['C07', 'C08', 'C13'], ghost=['M', 'K'])
+def running_save(self, out_state, save_context, M=None, K=None):
+    """a RUNNING state's checkpoint: the continuation by NAME, its arguments by value, and the pending command if the step
+    function already returned one"""
+    requires((M == 'args' or M == 'kwargs') and K == 'run_fn')
+    requires(type_is(self, Running) and is_dict(out_state) and wf_state(out_state) and not dhas(out_state, 'run_fn') and not dhas(out_state, 'command'))
+    requires(is_heap_obj(self.run_fn) and (self._command is None or isinstance(self._command, Command)))
+    cmd = self._command
+    modifies(contents(out_state), contents(dget(out_state, '!!meta'), when=dhas(out_state, '!!meta')),
+             contents(dget(dget(out_state, '!!meta'), 'types'), when=dhas(out_state, '!!meta') and dhas(dget(out_state, '!!meta'), 'types')),
+             ghost('LASTSAVED'), self._persist_configured)
+    ensures('continuation_by_name', dhas(out_state, 'run_fn') and dget(out_state, 'run_fn') is attr(self.run_fn, '__name__'))
+    ensures('arguments_by_value', saved_member(self, out_state, M, attr(self, M)))
+    ensures('pending_command_recorded', implies(cmd is not None, dhas(out_state, 'command') and uf('saved_of', dget(out_state, 'command')) is cmd))
+    raises(Exception, True)
+    replay('continuation_by_name', 'bundle_roundtrip')
+    replay('arguments_by_value', 'bundle_roundtrip')
+    replay('pending_command_recorded', 'bundle_roundtrip')
+
+
+@contract('plumpy.process_states.Waiting.save_instance_state', props=['C07', 'C08', 'C13'], ghost=['M', 'K'])
+def waiting_save(self, out_state, save_context, M=None, K=None):
+    """a WAITING state's checkpoint: message and data by value, the continuation by NAME when there is one"""
+    requires((M == 'msg' or M == 'data') and K == 'DONE_CALLBACK')
+    requires(type_is(self, Waiting) and is_dict(out_state) and wf_state(out_state) and not dhas(out_state, 'DONE_CALLBACK'))
+    requires(self.done_callback is None or is_heap_obj(self.done_callback))
+    cb = self.done_callback
+    modifies(contents(out_state), contents(dget(out_state, '!!meta'), when=dhas(out_state, '!!meta')),
+             contents(dget(dget(out_state, '!!meta'), 'types'), when=dhas(out_state, '!!meta') and dhas(dget(out_state, '!!meta'), 'types')),
+             ghost('LASTSAVED'), self._persist_configured)
+    ensures('continuation_by_name', dhas(out_state, 'DONE_CALLBACK') == (cb is not None)
+            and implies(cb is not None, dget(out_state, 'DONE_CALLBACK') is attr(cb, '__name__')))
+    ensures('message_and_data_by_value', saved_member(self, out_state, M, attr(self, M)))
+    raises(Exception, True)
+    replay('continuation_by_name', 'bundle_roundtrip')
+    replay('message_and_data_by_value', 'bundle_roundtrip')
